@@ -262,6 +262,25 @@ def check_c03(tier: str) -> int:
                 dist[f"at{gen}_decode_{'ok' if d[0] == 'ok' else d[1]}"] += 1
                 if mis is not None:
                     corr_bad.append((gen, (ty, p.hex()), None, mis, None))
+            # a run longer than the 256-value packet counter: every send still yields one well-formed frame,
+            # numbered consecutively modulo 256 (theorem hypothesis pid < 256 is what the header factory must supply)
+            cand = [m for (k, m), (_, r, fl, _), dm in zip(msgs, enc, doms) if fl is not None and dm[:2] == [1, 1] and r[0] == "ok" and len(r[2]) < 40]
+            if cand:
+                m = cand[0]
+                last = None
+                for i in range(300 if tier == "quick" else 1100):
+                    ck.count()
+                    dist[f"at{gen}_counter_run"] += 1
+                    bad, frame = frame_monitor(lb, m, 0x90 if m.message_id == 0x1F else 0x80)
+                    pid = frame[(2 if gen == 4 else 14) + 2] if frame else None
+                    if bad is None and last is not None and pid != (last + 1) % 256:
+                        bad = f"packet id {pid} follows {last}"
+                    if bad:
+                        ck.violation("round trip fails on the implementation",
+                                     {"kind": "roundtrip-counter-run", "gen": gen, "message": repr(m), "send_number": i + 1,
+                                      "failure": f"send number {i + 1} of a run through one registry: " + bad})
+                        break
+                    last = pid
         finally:
             lb.close()
     float_tie(ck, dist)
